@@ -56,7 +56,7 @@ def cases(draw):
     sim_length = None if lk == "minkowski" or draw(st.booleans()) else draw(st.integers(8, 20))
     cfg = {"space": sp, "lineup": draw(gen.lineup_spec(kinds=gen.CHEAP, max_len=6, max_bs=5)), "loss": loss, "model": model,
            "D": d_out, "N": n, "E": draw(st.sampled_from([1, 2, 2, 3, 4])), "seed": draw(st.integers(0, 2**32 - 2)),
-           "sim_length": sim_length}
+           "sim_length": sim_length, "convergence_precision": draw(st.sampled_from([None, None, None, 0, 0, 1]))}
     return {"cfg": cfg, "calls": draw(st.lists(st.integers(1, 4), min_size=draw(st.sampled_from([1, 2, 2, 3])), max_size=5))}
 
 
@@ -134,9 +134,18 @@ def check_history(ctx: Ctx, case):
                          f"{prev[k][j]!r} to {cur[k][j]!r}", sub, case)
                 return
         # (b) rows are what samplers proposed, (e) batch labels, (f) method labels
-        if len(log["samplers"]) - nb_before != nb:
+        ran_now = len(log["samplers"]) - nb_before
+        stopped_early = cfg.get("convergence_precision") is not None and 1 <= ran_now < nb
+        if stopped_early:
+            classes.append("early-stop") if "early-stop" not in classes else None
+        if ran_now != nb and not stopped_early:   # (whether a stop is *justified* is C14's subject)
             count(False)
-            ctx.fail("C02/batches-run", f"call {ci}: {len(log['samplers']) - nb_before} batches ran, {nb} requested", sub, case)
+            ctx.fail("C02/batches-run", f"call {ci}: {ran_now} batches ran, {nb} requested", sub, case)
+            return
+        if cal.current_batch_index != len(log["samplers"]):
+            count(False)
+            ctx.fail("C02/batch-counter", f"call {ci}: {len(log['samplers'])} batches have run over the calibrator's life but its "
+                     f"batch counter is {cal.current_batch_index}", sub, case)
             return
         proposed = np.vstack([o for _, _, o in log["samplers"]])
         if not calib.same_values(proposed, cur["params_samp"]):
